@@ -811,6 +811,10 @@ class FuncAnalysis:
         # --- intrinsic results ---------------------------------------------------
         if last in ("deepcopy",) or d in ("copy.deepcopy",):
             return fresh()
+        if (d in ("copy.copy",) or (isinstance(fn, ast.Name) and fn.id == "copy")) and argvals and e.args \
+                and self.copy_aliases(e.args[0]):
+            # the class restores `__dict__ = state` in __setstate__: copy.copy shares the attribute dict
+            return argvals[0]
         if (d in ("copy.copy",) or (isinstance(fn, ast.Name) and fn.id == "copy")) and argvals:
             return frozenset(org(FRESH, o.path if o.root == FRESH else (), o.cond, o if o.root != FRESH else o.shadow)
                              for o in argvals[0]) or fresh()
@@ -856,6 +860,22 @@ class FuncAnalysis:
         if kind == "ctor":
             return fresh()
         return ret if ret else fresh()
+
+    def copy_aliases(self, arg: ast.expr) -> bool:
+        """copy.copy(arg) yields an object sharing arg's __dict__ when the (statically known)
+        class of arg defines `__setstate__(self, state): self.__dict__ = state`."""
+        classes = []
+        if isinstance(arg, ast.Name) and arg.id in ("self",):
+            c = self.eng.res.class_of_self(self.f)
+            if c is not None:
+                classes = [c]
+        elif isinstance(arg, ast.Name):
+            classes = self.eng.res.local_type(self.f, arg.id)
+        for c in classes:
+            m = c.lookup("__setstate__")
+            if m is not None and aliasing_setstate(m):
+                return True
+        return False
 
     def callable_refs(self, name, env) -> List[FuncInfo]:
         key = (self.f.qual, name)
@@ -1055,6 +1075,18 @@ class FuncAnalysis:
                 if consistent(x.cond):
                     out.add(x)
         return frozenset(out)
+
+
+def aliasing_setstate(m: FuncInfo) -> bool:
+    """`self.__dict__ = state` with the state parameter itself (no copy)."""
+    if len(m.positional) < 2:
+        return False
+    st = m.positional[1]
+    for s_ in function_stmts(m):
+        if isinstance(s_, ast.Assign) and any(isinstance(t, ast.Attribute) and t.attr == "__dict__" for t in s_.targets) \
+                and isinstance(s_.value, ast.Name) and s_.value.id == st:
+            return True
+    return False
 
 
 def _memo_path(o: Org) -> bool:
